@@ -526,6 +526,12 @@ ILLFORMED = [
     ("non-numeric-modifier", ["t = kelv; offset: 1 * m"], "t"),
     ("unknown-modifier", ["t = kelv; foo: 3"], "t"),
     ("log-missing-factor", ["t = 1; logbase: 10"], "t"),
+    ("modifier-without-colon", ["t = kelv; offset 5"], "t"),
+    ("modifier-without-colon", ["t = kelv; offset: 5; junk"], "t"),
+    ("modifier-without-colon", ["t = kelv; bogus"], "t"),
+    ("modifier-with-equals", ["t = 2 * kelv; offset = 5"], "t"),
+    ("modifier-empty", ["t = kelv; offset:"], "t"),
+    ("modifier-duplicate-colon", ["t = kelv; offset: 5: 6"], "t"),
     ("unknown-directive", ["@foo bar", "@end"], None),
     ("unknown-directive", ["@frobnicate"], None),
     ("unterminated-block", ["@group G", "    gg = 3 * m"], None),
@@ -568,8 +574,10 @@ def run_illformed(spec, rec, rng, pint):
                     except Exception as e:  # noqa: BLE001
                         stage = "load:" + type(e).__name__
                     if stage is None and first is not None:
+                        # "first use" = asking for the unit's own expansion; a conversion to some other
+                        # unit may fail for legitimate dimensional reasons and proves nothing
                         for use in (lambda: ureg.get_root_units(first), lambda: ureg.Quantity(nit(1), first).to_root_units(),
-                                    lambda: ureg.convert(nit(1), first, "m")):
+                                    lambda: ureg.get_dimensionality(first)):
                             try:
                                 use()
                             except Exception as e:  # noqa: BLE001
